@@ -487,6 +487,21 @@ impl Check for C07 {
         } else {
             g.urange(1, 8)
         };
+        // every fourth single-selection scenario enumerates the pairs (n, k) with n <= 64, k <= n densely (by run
+        // index): relations between the two parameters (k*k <= n, 2k == n+1, ...) are all met
+        let pair = if run % 4 == 1 {
+            let idx = (run / 4) % 2080;
+            let mut nn = 1u64;
+            let mut acc = 0u64;
+            while acc + nn <= idx {
+                acc += nn;
+                nn += 1;
+            }
+            Some((nn as usize, (idx - acc + 1) as usize))
+        } else {
+            None
+        };
+        let n = pair.map_or(n, |(nn, _)| nn);
         let spread = if n > 14 && g.coin() { g.range(1, n as u64) as i32 } else { g.range(1, 4) as i32 };
         let vals: Vec<i32> = (0..n).map(|_| g.range(0, spread as u64) as i32).collect();
         let which = match g.below(4) {
@@ -499,6 +514,10 @@ impl Check for C07 {
                 2 => g.log_uniform(1, n),
                 _ => g.urange(1, n),
             }),
+        };
+        let which = match pair {
+            Some((_, k)) => Which::Tournament(k),
+            None => which,
         };
         Sc::One { vals, which, rng: RngSpec::swarm(g) }
     }
